@@ -19,6 +19,7 @@ What "the way Elasticsearch renders them" means here (re-derived from SearchResp
 """
 from __future__ import annotations
 
+import functools
 import json
 import re
 
@@ -96,6 +97,7 @@ def ser(obj, ascii_=False, java=True, spaced=False):
 _TOK = re.compile(r'"(?:[^"\\]|\\.)*"|[\[\]{}:,]|[^\s\[\]{}:,"]+', re.S)
 
 
+@functools.lru_cache(maxsize=32)
 def scan_members(text):
     """
     [(path, key_start, value_start, value_end)] for every object member of the JSON text; path = tuple of keys / list indices.
@@ -204,30 +206,54 @@ INTS = [0, 1, -1, 7, 42, 299, 1000, 10000, 1609780186, 1609780186000, 2**31, 2**
 FLOATS = [0.0, -0.0, 1.0, 1.5, -2.25, 0.1, 1e-5, 1e16, 1.7976931348623157e308, 5e-324, 1609780186000.123, 3.4028235e38, 9.835454e6]
 
 
+# Strategy objects are built once (Hypothesis validates every new strategy object on first draw, which dominated the run time when
+# they were built inside the composites); the building blocks below are plain functions taking `draw`.
+_i = functools.lru_cache(maxsize=None)(st.integers)
+_B = st.booleans()
+
+
+@functools.lru_cache(maxsize=None)
+def _sf(*values):
+    return st.sampled_from(values)
+
+
+def _one_in(draw, n):
+    return draw(_i(0, n - 1)) == 0
+
+
+@functools.lru_cache(maxsize=None)
 def text(adv, max_parts=4):
     frags = (ADV + ADV + PLAIN) if adv else PLAIN
     return st.lists(st.sampled_from(frags), min_size=0, max_size=max_parts).map("".join)
 
 
+@functools.lru_cache(maxsize=None)
 def name(adv):
     """non-empty object key chosen by a user (field name, source name)"""
     return st.sampled_from(RESERVED_KEYS + PLAIN_KEYS) | text(adv, 3).map(lambda s: s or "k")
 
 
+def _agg_safe(s):
+    # ES: "Aggregation names can contain any character except '[', ']', and '>'"; doc_count is what single-bucket aggregations emit
+    s = s.replace("[", "(").replace("]", ")").replace(">", ")")
+    return "dc" if s == "doc_count" else s
+
+
+@functools.lru_cache(maxsize=None)
 def agg_name(adv):
-    # ES: "Aggregation names can contain any character except '[', ']', and '>'"
-    return name(adv).map(lambda s: s.replace("[", "(").replace("]", ")").replace(">", ")"))
+    return name(adv).map(_agg_safe)
 
 
-def number():
-    return st.sampled_from(INTS) | st.sampled_from(FLOATS) | st.integers(-5, 300)
+_NUMBER = st.sampled_from(INTS) | st.sampled_from(FLOATS) | st.integers(-5, 300)
 
 
+@functools.lru_cache(maxsize=None)
 def scalar(adv):
-    return st.one_of(text(adv), text(adv), number(), st.none(), st.booleans())
+    return st.one_of(text(adv), text(adv), _NUMBER, st.none(), st.booleans())
 
 
-def json_value(adv, max_leaves=6):
+@functools.lru_cache(maxsize=None)
+def json_value(adv, max_leaves=5):
     return st.recursive(
         scalar(adv),
         lambda c: st.lists(c, max_size=3) | st.dictionaries(name(adv), c, max_size=3),
@@ -235,37 +261,73 @@ def json_value(adv, max_leaves=6):
     )
 
 
-def b64ish():
-    return st.lists(st.sampled_from(["FGluY2x1ZGVfY29udGV4dF91dWlk", "DXF1ZXJ5QW5kRmV0Y2gB", "46ToAwMDaWR5", "AAAAAAAAAAEWd0k=", "z-_", "=="]), min_size=1, max_size=3).map(
-        "".join
-    )
+@functools.lru_cache(maxsize=None)
+def _source_dict(adv):
+    return st.dictionaries(name(adv), json_value(adv), max_size=3)
+
+
+@functools.lru_cache(maxsize=None)
+def _fields_dict(adv):
+    return st.dictionaries(name(adv), st.lists(scalar(adv), min_size=1, max_size=2), min_size=1, max_size=2)
+
+
+@functools.lru_cache(maxsize=None)
+def _highlight_dict(adv):
+    return st.dictionaries(name(adv), st.lists(text(adv).map(lambda s: "<em>" + s + "</em>"), min_size=1, max_size=2), min_size=1, max_size=2)
+
+
+@functools.lru_cache(maxsize=None)
+def sort_values(adv):
+    v = st.one_of(text(adv), text(adv), st.sampled_from(INTS), st.sampled_from(FLOATS), st.integers(0, 50), st.none())
+    return st.lists(v, min_size=1, max_size=3)
+
+
+@functools.lru_cache(maxsize=None)
+def after_key_value(adv):
+    return st.one_of(text(adv), text(adv), st.sampled_from(INTS), st.sampled_from(FLOATS), st.booleans(), st.none(), st.integers(0, 9))
+
+
+@functools.lru_cache(maxsize=None)
+def _names(adv, lo, hi, agg):
+    return st.lists(agg_name(adv) if agg else name(adv), min_size=lo, max_size=hi, unique=True)
+
+
+@functools.lru_cache(maxsize=None)
+def _name_list(adv):
+    return st.lists(name(adv), min_size=1, max_size=2)
+
+
+_B64 = st.lists(st.sampled_from(["FGluY2x1ZGVfY29udGV4dF91dWlk", "DXF1ZXJ5QW5kRmV0Y2gB", "46ToAwMDaWR5", "AAAAAAAAAAEWd0k=", "z-_", "=="]), min_size=1, max_size=3).map(
+    "".join
+)
 
 
 def _shuffled(draw, d, on):
+    """d with its members permuted (Fisher-Yates over drawn integers) when `on`"""
     if not on or len(d) < 2:
         return d
-    keys = draw(st.permutations(list(d)))
+    keys = list(d)
+    for i in range(len(keys) - 1, 0, -1):
+        j = draw(_i(0, i))
+        keys[i], keys[j] = keys[j], keys[i]
     return {k: d[k] for k in keys}
 
 
 # ------------------------------------------------------------------------------------------------ search building blocks
-@st.composite
+_SOURCE_STYLES = ("compact", "compact", "compact-ascii", "spaced", "spaced-ascii")
+_BLOB_FRAGS = ('\\"', "x", "]\\", 'é"', '"sort":[', "😀", "\\\\", "abc\n")
+
+
 def source_doc(draw, adv):
-    doc = draw(st.dictionaries(name(adv), json_value(adv, 5), max_size=4))
-    big = draw(st.integers(0, 39))
-    if big == 0:
+    doc = draw(_source_dict(adv))
+    if _one_in(draw, 40):
         # a long string value: makes the response cross ijson's 16 KiB read buffer, with escapes at arbitrary offsets
-        frag = draw(st.sampled_from(['\\"', "x", "]\\", 'é"', '"sort":[', "😀", "\\\\", "abc\n"]))
-        reps = draw(st.sampled_from([700, 2048, 4100, 8200]))
-        pad = draw(st.integers(0, 9))
-        doc[draw(st.sampled_from(["blob", "sort", "message"]))] = "p" * pad + frag * reps
-    style = draw(st.sampled_from(["compact", "compact", "compact-ascii", "spaced", "spaced-ascii"]))
+        frag = draw(_sf(*_BLOB_FRAGS))
+        reps = draw(_sf(700, 2048, 4100, 8200))
+        pad = draw(_i(0, 9))
+        doc[draw(_sf("blob", "sort", "message"))] = "p" * pad + frag * reps
+    style = draw(_sf(*_SOURCE_STYLES))
     return Raw(ser(doc, ascii_=style.endswith("ascii"), java=False, spaced=style.startswith("spaced")))
-
-
-def sort_values(adv):
-    v = st.one_of(text(adv), text(adv), st.sampled_from(INTS), st.sampled_from(FLOATS), st.integers(0, 50), st.none())
-    return st.lists(v, min_size=1, max_size=3)
 
 
 def total(style, value, relation="eq"):
@@ -274,13 +336,12 @@ def total(style, value, relation="eq"):
     return value
 
 
-@st.composite
 def inner_hits(draw, adv, with_sort):
     out = {}
-    for nm in draw(st.lists(agg_name(adv), min_size=1, max_size=2, unique=True)):
+    for nm in draw(_names(adv, 1, 2, True)):
         hs = []
-        for k in range(draw(st.integers(0, 2))):
-            h = {"_index": "logs", "_id": str(k), "_nested": {"field": nm, "offset": k}, "_score": 1.0, "_source": draw(source_doc(adv))}
+        for k in range(draw(_i(0, 2))):
+            h = {"_index": "logs", "_id": str(k), "_nested": {"field": nm, "offset": k}, "_score": 1.0, "_source": source_doc(draw, adv)}
             if with_sort:
                 h["sort"] = draw(sort_values(adv))
             hs.append(h)
@@ -288,98 +349,93 @@ def inner_hits(draw, adv, with_sort):
     return out
 
 
-@st.composite
 def hit(draw, adv, with_sort, rich):
     """one search hit, members in the order SearchHit#toInnerXContent writes them (never shuffled, see module doc)"""
-    h = {"_index": draw(st.sampled_from(INDEX_NAMES)), "_id": draw(text(adv, 2))}
-    if draw(st.integers(0, 5)) == 0:
-        h["_version"] = draw(st.integers(1, 9))
-    h["_score"] = None if with_sort else draw(st.sampled_from(FLOATS))
-    if rich and draw(st.integers(0, 4)) == 0:
+    h = {"_index": draw(_sf(*INDEX_NAMES)), "_id": draw(text(adv, 2))}
+    if _one_in(draw, 6):
+        h["_version"] = draw(_i(1, 9))
+    h["_score"] = None if with_sort else draw(_sf(*FLOATS))
+    extras = draw(_i(0, 63)) if rich else 0  # one draw decides which optional members exist
+    if extras & 1 and extras & 2:
         h["_routing"] = draw(text(adv, 2))
-    h["_source"] = draw(source_doc(adv))
-    if rich and draw(st.integers(0, 3)) == 0:
-        h["fields"] = draw(st.dictionaries(name(adv), st.lists(scalar(adv), min_size=1, max_size=2), min_size=1, max_size=2))
-    if rich and draw(st.integers(0, 3)) == 0:
-        h["highlight"] = draw(st.dictionaries(name(adv), st.lists(text(adv).map(lambda s: "<em>" + s + "</em>"), min_size=1, max_size=2), min_size=1, max_size=2))
+    h["_source"] = source_doc(draw, adv)
+    if extras & 4 and extras & 8:
+        h["fields"] = draw(_fields_dict(adv))
+    if extras & 16 and extras & 32:
+        h["highlight"] = draw(_highlight_dict(adv))
     if with_sort:
         h["sort"] = draw(sort_values(adv))
-    if rich and draw(st.integers(0, 5)) == 0:
-        h["matched_queries"] = draw(st.lists(name(adv), min_size=1, max_size=2))
-    if rich and draw(st.integers(0, 7)) == 0:
-        h["_explanation"] = {"value": 1.5, "description": draw(text(adv)), "details": []}
-    if rich and draw(st.integers(0, 4)) == 0:
-        h["inner_hits"] = draw(inner_hits(adv, with_sort and draw(st.booleans())))
+    if rich:
+        after = draw(_i(0, 19))  # members ES writes after `sort`
+        if after in (0, 1, 2):
+            h["matched_queries"] = draw(_name_list(adv))
+        if after in (2, 3):
+            h["_explanation"] = {"value": 1.5, "description": draw(text(adv)), "details": []}
+        if after in (4, 5, 6, 7):
+            h["inner_hits"] = inner_hits(draw, adv, with_sort and after < 6)
     return h
 
 
-@st.composite
 def hit_list(draw, adv, with_sort, rich, lo=0, hi=5, allow_long=False):
-    size_class = draw(st.integers(0, 19))
-    if size_class == 0 and allow_long:
+    if allow_long and _one_in(draw, 20):
         # many hits from two templates: a long response
-        tpl = [draw(hit(adv, with_sort, rich)) for _ in range(2)]
-        n = draw(st.sampled_from([40, 120]))
+        tpl = [hit(draw, adv, with_sort, rich) for _ in range(2)]
+        n = draw(_sf(40, 120))
         return [dict(tpl[k % 2], _id=f"{tpl[k % 2]['_id']}{k}") for k in range(n)]
-    return [draw(hit(adv, with_sort, rich)) for _ in range(draw(st.integers(lo, hi)))]
+    return [hit(draw, adv, with_sort, rich) for _ in range(draw(_i(lo, hi)))]
 
 
-@st.composite
 def composite_agg_body(draw, adv, after_key):
     a = {}
     if after_key is not None:
         a["after_key"] = after_key
     keys = list(after_key) if after_key else ["k"]
     buckets = []
-    for _ in range(draw(st.integers(0, 2))):
-        buckets.append({"key": {k: draw(scalar(adv)) for k in keys}, "doc_count": draw(st.integers(0, 99))})
+    for _ in range(draw(_i(0, 2))):
+        buckets.append({"key": {k: draw(scalar(adv)) for k in keys}, "doc_count": draw(_i(0, 99))})
     a["buckets"] = buckets
     return a
 
 
-@st.composite
 def other_agg(draw, adv, depth=0):
-    kind = draw(st.sampled_from(["value", "value", "terms", "top_hits", "stats", "filter"] if depth < 2 else ["value", "stats"]))
+    kind = draw(_sf("value", "value", "terms", "top_hits", "stats", "filter") if depth < 2 else _sf("value", "stats"))
     if kind == "value":
-        return {"value": draw(st.sampled_from(FLOATS) | st.none())}
+        return {"value": draw(_sf(None, *FLOATS))}
     if kind == "stats":
-        return {"count": 3, "min": 1.0, "max": draw(st.sampled_from(FLOATS)), "avg": 2.0, "sum": 6.0}
+        return {"count": 3, "min": 1.0, "max": draw(_sf(*FLOATS)), "avg": 2.0, "sum": 6.0}
     if kind == "terms":
         bs = []
-        for _ in range(draw(st.integers(0, 2))):
-            b = {"key": draw(text(adv) | st.sampled_from(INTS)), "doc_count": draw(st.integers(0, 99))}
-            if draw(st.booleans()):
-                b[draw(agg_name(adv))] = draw(other_agg(adv, depth + 1))
+        for _ in range(draw(_i(0, 2))):
+            b = {"key": draw(text(adv)) if draw(_B) else draw(_sf(*INTS)), "doc_count": draw(_i(0, 99))}
+            if draw(_B):
+                b[draw(agg_name(adv))] = other_agg(draw, adv, depth + 1)
             bs.append(b)
         return {"doc_count_error_upper_bound": 0, "sum_other_doc_count": 0, "buckets": bs}
     if kind == "top_hits":
-        hs = [draw(hit(adv, True, False)) for _ in range(draw(st.integers(0, 2)))]
+        hs = [hit(draw, adv, True, False) for _ in range(draw(_i(0, 2)))]
         return {"hits": {"total": {"value": len(hs), "relation": "eq"}, "max_score": None, "hits": hs}}
     # single-bucket aggregation with sub-aggregations rendered inline
-    a = {"doc_count": draw(st.integers(0, 10**7))}
-    for nm in draw(st.lists(agg_name(adv), max_size=2, unique=True)):
-        if nm != "doc_count":
-            a[nm] = draw(other_agg(adv, depth + 1))
+    a = {"doc_count": draw(_i(0, 10**7))}
+    for nm in draw(_names(adv, 0, 2, True)):
+        a[nm] = other_agg(draw, adv, depth + 1)
     return a
 
 
-@st.composite
 def aggregations(draw, adv, shuffle, composite_path=None, after_key=None, has_composite=True):
     """aggregations object; when composite_path is given the composite agg sits under that path of single-bucket aggregations"""
     aggs = {}
-    for nm in draw(st.lists(agg_name(adv), max_size=2, unique=True)):
+    for nm in draw(_names(adv, 0, 2, True)):
         if composite_path and nm == composite_path[0]:
             continue
-        aggs[nm] = draw(other_agg(adv))
+        aggs[nm] = other_agg(draw, adv)
     if composite_path and has_composite:
-        node = draw(composite_agg_body(adv, after_key))
-        node = _shuffled(draw, node, shuffle)
+        node = _shuffled(draw, composite_agg_body(draw, adv, after_key), shuffle)
         for depth in range(len(composite_path) - 1, 0, -1):
-            wrapper = {"doc_count": draw(st.integers(0, 10**7))}
-            if draw(st.integers(0, 3)) == 0:
+            wrapper = {"doc_count": draw(_i(0, 10**7))}
+            if _one_in(draw, 4):
                 sib = draw(agg_name(adv))
-                if sib not in (composite_path[depth], "doc_count"):
-                    wrapper[sib] = draw(other_agg(adv, 2))
+                if sib != composite_path[depth]:
+                    wrapper[sib] = other_agg(draw, adv, 2)
             wrapper[composite_path[depth]] = node
             node = _shuffled(draw, wrapper, shuffle)
         aggs[composite_path[0]] = node
@@ -387,7 +443,6 @@ def aggregations(draw, adv, shuffle, composite_path=None, after_key=None, has_co
     return aggs
 
 
-@st.composite
 def search_response(
     draw, adv, shuffle, ascii_, hits, total_style, total_value, relation="eq", scroll_id=None, pit_id=None, aggs=None, timed_out=None, took=None
 ):
@@ -396,14 +451,14 @@ def search_response(
         r["_scroll_id"] = scroll_id
     if pit_id is not None:
         r["pit_id"] = pit_id
-    r["took"] = draw(st.sampled_from([0, 1, 10, 132, 45000])) if took is None else took
-    r["timed_out"] = draw(st.sampled_from([False, False, False, True])) if timed_out is None else timed_out
-    if draw(st.integers(0, 9)) == 0:
-        r["terminated_early"] = draw(st.booleans())
-    sh = {"total": draw(st.integers(1, 9)), "successful": draw(st.integers(0, 9))}
-    if draw(st.integers(0, 4)) > 0:
-        sh["skipped"] = draw(st.integers(0, 3))
-    sh["failed"] = draw(st.sampled_from([0, 0, 0, 1, 2]))
+    r["took"] = draw(_sf(0, 1, 10, 132, 45000)) if took is None else took
+    r["timed_out"] = draw(_sf(False, False, False, True)) if timed_out is None else timed_out
+    if _one_in(draw, 10):
+        r["terminated_early"] = draw(_B)
+    sh = {"total": draw(_i(1, 9)), "successful": draw(_i(0, 9))}
+    if not _one_in(draw, 5):
+        sh["skipped"] = draw(_i(0, 3))
+    sh["failed"] = draw(_sf(0, 0, 0, 1, 2))
     if sh["failed"]:
         sh["failures"] = [{"shard": 0, "index": "logs", "node": "n1", "reason": {"type": "query_shard_exception", "reason": draw(text(adv))}}]
     r["_shards"] = _shuffled(draw, sh, shuffle)
@@ -411,83 +466,95 @@ def search_response(
     if total_style != "absent":
         t = total(total_style, total_value, relation)
         h["total"] = _shuffled(draw, t, shuffle) if isinstance(t, dict) else t
-    h["max_score"] = draw(st.sampled_from([None, 1.0, 0.2876821]))
+    h["max_score"] = draw(_sf(None, 1.0, 0.2876821))
     h["hits"] = hits
     r["hits"] = _shuffled(draw, h, shuffle)
     if aggs:
         r["aggregations"] = aggs
-    if draw(st.integers(0, 14)) == 0:
+    if _one_in(draw, 15):
         r["suggest"] = {draw(agg_name(adv)): [{"text": draw(text(adv)), "offset": 0, "length": 4, "options": []}]}
     r = _shuffled(draw, r, shuffle)
     return ser(r, ascii_=ascii_)
 
 
 # ------------------------------------------------------------------------------------------------ cases
-@st.composite
 def _render_opts(draw):
-    adv = draw(st.integers(0, 9)) < 8
-    shuffle = draw(st.integers(0, 9)) < 3
-    ascii_ = draw(st.integers(0, 9)) < 3
+    o = draw(_i(0, 999))
+    adv = o % 10 < 8
+    shuffle = (o // 10) % 10 < 3
+    ascii_ = (o // 100) % 10 < 3
     return adv, shuffle, ascii_
+
+
+_OK_SHARDS = ({"total": 2, "successful": 1, "failed": 0}, {"total": 2, "successful": 2, "failed": 0}, {"total": 1, "successful": 1, "failed": 0})
+_OUTCOMES = {
+    "ok": ("created", "created", "updated", "deleted", "noop", "s299"),
+    "soft": ("created", "updated", "shard_failed", "del404"),
+    "mixed": ("created", "updated", "deleted", "noop", "s299", "shard_failed", "del404", "fail", "fail", "fail", "fail", "fail"),
+}
+_ERR_TYPES = ("mapper_parsing_exception", "version_conflict_engine_exception", "es_rejected_execution_exception", "document_missing_exception")
+
+
+def _bulk_template(draw, adv, shuffle, outcomes):
+    T = text(adv)
+    oc = draw(_sf(*outcomes))
+    t = {"_index": draw(_sf(*INDEX_NAMES))}
+    if _one_in(draw, 6):
+        t["_type"] = "_doc"
+    t["_id"] = draw(text(adv, 2))
+    if oc == "fail":
+        op = draw(_sf("index", "index", "create", "update", "delete"))
+        t["status"] = draw(_sf(400, 400, 404, 409, 429, 429, 500, 503, 300))
+        form = draw(_sf("object", "object", "object", "object", "caused_by", "null_reason", "string"))
+        if form == "string":
+            t["error"] = "RemoteTransportException[" + draw(T) + "]"
+        else:
+            e = {"type": draw(_sf(*_ERR_TYPES))}
+            e["reason"] = None if form == "null_reason" else draw(T)
+            if draw(_B):
+                e.update({"index_uuid": "aAsFqTI0Tc2W0LCWgPNrOA", "shard": "0", "index": t["_index"]})
+            if form == "caused_by":
+                e["caused_by"] = {"type": "illegal_argument_exception", "reason": draw(T)}
+            t["error"] = _shuffled(draw, e, shuffle)
+        return op, _shuffled(draw, t, shuffle)
+    ok_shards = dict(draw(_sf(0, 1, 2)) and _OK_SHARDS[1] or _OK_SHARDS[0])
+    if oc == "created":
+        op, result, status, shards = draw(_sf("index", "create")), "created", 201, ok_shards
+    elif oc == "updated":
+        op, result, status, shards = draw(_sf("index", "update")), "updated", 200, ok_shards
+    elif oc == "deleted":
+        op, result, status, shards = "delete", "deleted", 200, ok_shards
+    elif oc == "noop":
+        op, result, status, shards = "update", "noop", 200, {"total": 0, "successful": 0, "failed": 0}
+    elif oc == "s299":  # boundary value of the status rule, no ES version emits it
+        op, result, status, shards = "index", "created", 299, ok_shards
+    elif oc == "del404":
+        op, result, status, shards = "delete", "not_found", 404, ok_shards
+    else:  # shard_failed: the primary succeeded, a replica did not
+        op, result, status = draw(_sf("index", "create", "update")), "created", 201
+        shards = {
+            "total": 2,
+            "successful": 1,
+            "failed": 1,
+            "failures": [
+                {"_index": t["_index"], "_shard": 0, "_node": "n2", "reason": {"type": "node_disconnected_exception", "reason": draw(T)}, "status": "INTERNAL_SERVER_ERROR", "primary": False}
+            ],
+        }
+    t.update({"_version": 1, "result": result, "_shards": _shuffled(draw, shards, shuffle), "_seq_no": 0, "_primary_term": 1, "status": status})
+    return op, _shuffled(draw, t, shuffle)
+
+
+@functools.lru_cache(maxsize=None)
+def _bulk_runs(n_templates, max_rep):
+    return st.lists(st.tuples(st.integers(0, n_templates - 1), st.sampled_from([1, 1, 1, 1, 2, 3, 7, 40, max_rep])), min_size=0, max_size=7)
 
 
 @st.composite
 def bulk_case(draw, tier):
-    adv, shuffle, ascii_ = draw(_render_opts())
-    T = text(adv)
-    mode = draw(st.sampled_from(["ok", "ok", "ok", "mixed", "mixed", "mixed", "mixed", "mixed", "soft"]))
-    outcomes = {
-        "ok": ["created", "created", "updated", "deleted", "noop", "s299"],
-        "soft": ["created", "updated", "shard_failed", "del404"],
-        "mixed": ["created", "updated", "deleted", "noop", "s299", "shard_failed", "del404", "fail", "fail", "fail", "fail"],
-    }[mode]
-    templates = []
-    for _ in range(draw(st.integers(1, 5))):
-        oc = draw(st.sampled_from(outcomes))
-        t = {"_index": draw(st.sampled_from(INDEX_NAMES))}
-        if draw(st.integers(0, 5)) == 0:
-            t["_type"] = "_doc"
-        t["_id"] = draw(text(adv, 2))
-        ok_shards = draw(st.sampled_from([{"total": 2, "successful": 1, "failed": 0}, {"total": 2, "successful": 2, "failed": 0}, {"total": 1, "successful": 1, "failed": 0}]))
-        if oc == "fail":
-            op = draw(st.sampled_from(["index", "index", "create", "update", "delete"]))
-            t["status"] = draw(st.sampled_from([400, 400, 404, 409, 429, 429, 500, 503, 300]))
-            form = draw(st.sampled_from(["object", "object", "object", "object", "caused_by", "null_reason", "string"]))
-            if form == "string":
-                t["error"] = "RemoteTransportException[" + draw(T) + "]"
-            else:
-                e = {"type": draw(st.sampled_from(["mapper_parsing_exception", "version_conflict_engine_exception", "es_rejected_execution_exception", "document_missing_exception"]))}
-                e["reason"] = None if form == "null_reason" else draw(T)
-                if draw(st.booleans()):
-                    e.update({"index_uuid": "aAsFqTI0Tc2W0LCWgPNrOA", "shard": "0", "index": t["_index"]})
-                if form == "caused_by":
-                    e["caused_by"] = {"type": "illegal_argument_exception", "reason": draw(T)}
-                t["error"] = _shuffled(draw, e, shuffle)
-        else:
-            op, result, status, shards = {
-                "created": (draw(st.sampled_from(["index", "create"])), "created", 201, ok_shards),
-                "updated": (draw(st.sampled_from(["index", "update"])), "updated", 200, ok_shards),
-                "deleted": ("delete", "deleted", 200, ok_shards),
-                "noop": ("update", "noop", 200, {"total": 0, "successful": 0, "failed": 0}),
-                "s299": ("index", "created", 299, ok_shards),  # boundary value of the status rule, no ES version emits it
-                "del404": ("delete", "not_found", 404, ok_shards),
-                "shard_failed": (
-                    draw(st.sampled_from(["index", "create", "update"])),
-                    "created",
-                    201,
-                    {
-                        "total": 2,
-                        "successful": 1,
-                        "failed": 1,
-                        "failures": [{"_index": t["_index"], "_shard": 0, "_node": "n2", "reason": {"type": "node_disconnected_exception", "reason": draw(T)}, "status": "INTERNAL_SERVER_ERROR", "primary": False}],
-                    },
-                ),
-            }[oc]
-            t.update({"_version": 1, "result": result, "_shards": _shuffled(draw, shards, shuffle), "_seq_no": 0, "_primary_term": 1, "status": status})
-        templates.append((op, _shuffled(draw, t, shuffle)))
-    max_rep = 120 if tier == "quick" else 300
-    reps = st.sampled_from([1, 1, 1, 1, 2, 3, 7, 40, max_rep])
-    runs = draw(st.lists(st.tuples(st.integers(0, len(templates) - 1), reps), min_size=0, max_size=7))
+    adv, shuffle, ascii_ = _render_opts(draw)
+    mode = draw(_sf("ok", "ok", "ok", "mixed", "mixed", "mixed", "mixed", "mixed", "mixed", "soft"))
+    templates = [_bulk_template(draw, adv, shuffle, _OUTCOMES[mode]) for _ in range(draw(_i(1, 5)))]
+    runs = draw(_bulk_runs(len(templates), 120 if tier == "quick" else 300))
     items = []
     for ti, rep in runs:
         op, t = templates[ti]
@@ -498,133 +565,127 @@ def bulk_case(draw, tier):
             it["_id"] = f"{t['_id']}{len(items)}"
             items.append({op: it})
     errors = any("error" in next(iter(i.values())) for i in items)  # BulkResponse#hasFailures: an item failed iff it carries a failure
-    took = draw(st.sampled_from([0, 3, 30, 2147483647]))
-    layout = "shuffled" if shuffle else draw(st.sampled_from(["es8", "es7"]))
-    ingest = draw(st.integers(0, 3)) == 0
+    took = draw(_sf(0, 3, 30, 2147483647))
+    layout = draw(_sf("shuffled", "shuffled", "es8", "es7")) if shuffle else draw(_sf("es8", "es7"))
+    ingest = _one_in(draw, 4)
     if layout == "es7":
         r = {"took": took}
         if ingest:
-            r["ingest_took"] = draw(st.integers(0, 99))
+            r["ingest_took"] = draw(_i(0, 99))
         r["errors"] = errors
         r["items"] = items
     else:
         r = {"errors": errors, "took": took}
         if ingest:
-            r["ingest_took"] = draw(st.integers(0, 99))
+            r["ingest_took"] = draw(_i(0, 99))
         r["items"] = items
-        r = _shuffled(draw, r, shuffle)
-    unit = draw(st.sampled_from(["docs", "docs", "docs", "ops", "MB"]))
+        r = _shuffled(draw, r, layout == "shuffled")
+    unit = draw(_sf("docs", "docs", "docs", "ops", "MB"))
     return {
         "kind": "bulk",
         "resp": [ser(r, ascii_=ascii_)],
         "unit": unit,
-        "bulk_size": len(items) if unit == "docs" else draw(st.integers(1, 5000)),
+        "bulk_size": len(items) if unit == "docs" else draw(_i(1, 5000)),
     }
 
 
-def _total_style():
-    return st.sampled_from(["object", "object", "object", "int", "int"])
+_TOTAL_STYLE = _sf("object", "object", "object", "int", "int")
 
 
 @st.composite
 def search_case(draw, tier):
-    adv, shuffle, ascii_ = draw(_render_opts())
-    hits = draw(hit_list(adv, draw(st.booleans()), True, 0, 6, allow_long=True))
-    style = draw(st.sampled_from(["object", "object", "object", "int", "int", "absent"]))
-    aggs = draw(aggregations(adv, shuffle)) if draw(st.integers(0, 2)) == 0 else None
-    rel = draw(st.sampled_from(["eq", "eq", "gte"]))
-    resp = draw(search_response(adv, shuffle, ascii_, hits, style, draw(st.sampled_from([0, 1, len(hits), 10000, 2**40])), rel, aggs=aggs))
+    adv, shuffle, ascii_ = _render_opts(draw)
+    hits = hit_list(draw, adv, draw(_B), True, 0, 5, allow_long=True)
+    style = draw(_sf("object", "object", "object", "int", "int", "absent"))
+    aggs = aggregations(draw, adv, shuffle) if _one_in(draw, 3) else None
+    rel = draw(_sf("eq", "eq", "gte"))
+    value = draw(_sf(0, 1, 10000, 2**40, -1))
+    resp = search_response(draw, adv, shuffle, ascii_, hits, style, len(hits) if value == -1 else value, rel, aggs=aggs)
     return {"kind": "search", "resp": [resp]}
 
 
 @st.composite
 def scroll_case(draw, tier):
-    adv, shuffle, ascii_ = draw(_render_opts())
-    size = draw(st.sampled_from([None, 1, 2, 3, 10]))
-    style = draw(_total_style())
-    n_pages = draw(st.integers(1, 4))
-    limit = draw(st.sampled_from(["all", "all", "limit"]))
-    rel = draw(st.sampled_from(["eq", "eq", "gte"]))
+    adv, shuffle, ascii_ = _render_opts(draw)
+    size = draw(_sf(None, 1, 2, 3, 10))
+    style = draw(_TOTAL_STYLE)
+    n_pages = draw(_i(1, 4))
+    limit = draw(_sf("all", "all", "limit"))
+    rel = draw(_sf("eq", "eq", "gte"))
     resps = []
-    if n_pages == 1 and limit == "all" and draw(st.booleans()):
+    if n_pages == 1 and limit == "all" and draw(_B):
         # everything fits on the first page: fewer hits than the page size (or none at all)
-        value = 0 if size in (None, 1) else draw(st.integers(0, size - 1))
-        hits = draw(hit_list(adv, False, True, min(value, 1), min(value, 3)))
-        resps.append(draw(search_response(adv, shuffle, ascii_, hits, style, value, rel, scroll_id=draw(b64ish()))))
+        value = 0 if size in (None, 1) else draw(_i(0, size - 1))
+        hits = hit_list(draw, adv, False, True, min(value, 1), min(value, 3))
+        resps.append(search_response(draw, adv, shuffle, ascii_, hits, style, value, rel, scroll_id=draw(_B64)))
         return {"kind": "scroll", "resp": resps, "size": size, "pages": "all"}
-    value = draw(st.sampled_from([10, 10, 37, 10000])) if size is not None else draw(st.sampled_from([1, 10, 10000]))
+    value = draw(_sf(10, 10, 37, 10000)) if size is not None else draw(_sf(1, 10, 10000))
     value = max(value, size or 1)
-    sid = draw(b64ish())
+    sid = draw(_B64)
     for k in range(n_pages):
         last = k == n_pages - 1
         empty = last and limit == "all" and n_pages > 1
-        hits = [] if empty else draw(hit_list(adv, False, True, 1, 4 if tier == "quick" else 8, allow_long=True))
-        resps.append(draw(search_response(adv, shuffle, ascii_, hits, style, value, rel, scroll_id=sid if k == 0 or draw(st.booleans()) else draw(b64ish()))))
+        hits = [] if empty else hit_list(draw, adv, False, True, 1, 3 if tier == "quick" else 8, allow_long=True)
+        resps.append(search_response(draw, adv, shuffle, ascii_, hits, style, value, rel, scroll_id=sid if k == 0 or draw(_B) else draw(_B64)))
     pages = "all" if (limit == "all" and n_pages > 1) else n_pages
     return {"kind": "scroll", "resp": resps, "size": size, "pages": pages}
 
 
 @st.composite
 def paginated_case(draw, tier):
-    adv, shuffle, ascii_ = draw(_render_opts())
-    size = draw(st.integers(1, 4))
-    n_pages = draw(st.sampled_from([1, 1, 2, 2, 2, 3]))
-    pit = draw(st.booleans())
-    style = draw(_total_style())
-    natural = draw(st.booleans())
-    if natural:
-        value = draw(st.integers(size * (n_pages - 1) + 1, size * n_pages))  # ceil(value / size) == n_pages
+    adv, shuffle, ascii_ = _render_opts(draw)
+    size = draw(_i(1, 4))
+    n_pages = draw(_sf(1, 1, 2, 2, 2, 3))
+    pit = draw(_B)
+    style = draw(_TOTAL_STYLE)
+    if draw(_B):
+        value = draw(_i(size * (n_pages - 1) + 1, size * n_pages))  # ceil(value / size) == n_pages
         rel = "eq"
-        pages = draw(st.sampled_from(["all", n_pages, n_pages + 2]))
+        pages = draw(_sf("all", 0, 2))
+        pages = pages if pages == "all" else n_pages + pages
     else:
-        value = draw(st.sampled_from([10000, 2**33]))
+        value = draw(_sf(10000, 2**33))
         rel = "gte"
         pages = n_pages
-    with_aggs = draw(st.integers(0, 5)) == 0
+    with_aggs = _one_in(draw, 6)
     resps = []
     for k in range(n_pages):
-        hits = draw(hit_list(adv, True, True, 1, size))
-        aggs = draw(aggregations(adv, shuffle)) if with_aggs else None
-        resps.append(draw(search_response(adv, shuffle, ascii_, hits, style, value, rel, pit_id=draw(b64ish()) if pit else None, aggs=aggs)))
-    return {"kind": "paginated", "resp": resps, "size": size, "pages": pages, "pit": pit, "hits_total": draw(st.sampled_from([None, None, 7]))}
-
-
-def after_key_value(adv):
-    return st.one_of(text(adv), text(adv), st.sampled_from(INTS), st.sampled_from(FLOATS), st.booleans(), st.none(), st.integers(0, 9))
+        hits = hit_list(draw, adv, True, True, 1, size)
+        aggs = aggregations(draw, adv, shuffle) if with_aggs else None
+        resps.append(search_response(draw, adv, shuffle, ascii_, hits, style, value, rel, pit_id=draw(_B64) if pit else None, aggs=aggs))
+    return {"kind": "paginated", "resp": resps, "size": size, "pages": pages, "pit": pit, "hits_total": draw(_sf(None, None, 7))}
 
 
 @st.composite
 def composite_case(draw, tier):
-    adv, shuffle, ascii_ = draw(_render_opts())
-    path = draw(st.lists(agg_name(adv).map(lambda s: "dc" if s == "doc_count" else s), min_size=1, max_size=3, unique=True))
-    sources = draw(st.lists(name(adv), min_size=1, max_size=3, unique=True))
-    n_pages = draw(st.sampled_from([1, 2, 2, 3]))
-    limit = draw(st.sampled_from(["all", "all", "limit"]))
-    pit = draw(st.booleans())
-    style = draw(_total_style())
-    value = draw(st.sampled_from([0, 3, 10000]))
+    adv, shuffle, ascii_ = _render_opts(draw)
+    path = draw(_names(adv, 1, 3, True))
+    sources = draw(_names(adv, 1, 3, False))
+    n_pages = draw(_sf(1, 2, 2, 3))
+    limit = draw(_sf("all", "all", "limit"))
+    pit = draw(_B)
+    style = draw(_TOTAL_STYLE)
+    value = draw(_sf(0, 3, 10000))
     resps = []
     for k in range(n_pages):
         last = k == n_pages - 1
         has_key = not (last and limit == "all")
         ak = {s: draw(after_key_value(adv)) for s in sources} if has_key else None
         # the last page of a full traversal: composite present without after_key, or (rarely) the aggregation missing altogether
-        has_comp = has_key or draw(st.integers(0, 5)) > 0
-        aggs = draw(aggregations(adv, shuffle, path, ak, has_comp))
-        hits = draw(hit_list(adv, draw(st.booleans()), False, 0, 2)) if draw(st.integers(0, 3)) == 0 else []
-        resps.append(
-            draw(search_response(adv, shuffle, ascii_, hits, style, value, draw(st.sampled_from(["eq", "gte"])), pit_id=draw(b64ish()) if pit else None, aggs=aggs or None))
-        )
+        has_comp = has_key or not _one_in(draw, 6)
+        aggs = aggregations(draw, adv, shuffle, path, ak, has_comp)
+        hits = hit_list(draw, adv, draw(_B), False, 0, 2) if _one_in(draw, 4) else []
+        resps.append(search_response(draw, adv, shuffle, ascii_, hits, style, value, draw(_sf("eq", "gte")), pit_id=draw(_B64) if pit else None, aggs=aggs or None))
     return {
         "kind": "composite",
         "resp": resps,
         "path": path,
         "sources": sources,
-        "size": draw(st.sampled_from([None, 2, 100])),
+        "size": draw(_sf(None, 2, 100)),
         "pages": "all" if limit == "all" else n_pages,
         "pit": pit,
-        "aggs_key": draw(st.sampled_from(["aggs", "aggregations"])),
-        "hits_total": draw(st.sampled_from([None, None, 7])),
+        "aggs_key": draw(_sf("aggs", "aggregations")),
+        "hits_total": draw(_sf(None, None, 7)),
     }
 
 
@@ -635,35 +696,57 @@ def _unique_prefixes(doc):
     return {p: vs[0] for p, vs in seen.items() if len(vs) == 1 and p}
 
 
+def _pick(draw, pool, max_n):
+    """up to max_n distinct elements of pool, in drawn order"""
+    pool = list(pool)
+    out = []
+    for _ in range(min(draw(_i(0, max_n)), len(pool))):
+        out.append(pool.pop(draw(_i(0, len(pool) - 1))))
+    return out
+
+
+_ABSENT = ("nope", "hits.nope", "took.x", "hits.total.value.x", "items.item.index.status", "aggregations.zz.after_key")
+
+
+@functools.lru_cache(maxsize=None)
+def _parse_base(tier):
+    return st.one_of(search_case(tier), bulk_case(tier), composite_case(tier), paginated_case(tier), scroll_case(tier))
+
+
 @st.composite
 def parse_case(draw, tier):
     """direct differential test of runner.parse with drawn property / list / object selections on any of the response kinds"""
-    base = draw(st.one_of(search_case(tier), bulk_case(tier), composite_case(tier), paginated_case(tier)))
-    textv = draw(st.sampled_from(base["resp"]))
+    base = draw(_parse_base(tier))
+    textv = base["resp"][draw(_i(0, len(base["resp"]) - 1))]
     doc = json.loads(textv)
     uniq = _unique_prefixes(doc)
+    everything = {p for p, _ in leaves(doc)}
     scalars = [p for p, v in uniq.items() if not isinstance(v, (dict, list))]
+    # the paths Rally's callers ask for come first so that they are picked often
+    usual = [p for p in ("took", "timed_out", "errors", "hits.total", "hits.total.value", "hits.total.relation", "_scroll_id", "pit_id", "_shards.failed") if p in scalars]
     lists_ = [p for p, v in uniq.items() if isinstance(v, list)]
     flats = [p for p, v in uniq.items() if isinstance(v, dict) and all(not isinstance(x, (dict, list)) for x in v.values())]
-    absent = ["nope", "hits.nope", "took.x", "hits.total.value.x", "items.item.index.status", "aggregations.zz.after_key"]
-    absent = [a for a in absent if a not in {p for p, _ in leaves(doc)}]
-    props = draw(st.lists(st.sampled_from(scalars), max_size=5, unique=True)) if scalars else []
-    props += draw(st.lists(st.sampled_from(absent), max_size=1)) if absent else []
-    lists = draw(st.none() | st.lists(st.sampled_from(lists_), max_size=3, unique=True)) if lists_ else draw(st.sampled_from([None, []]))
-    objects = draw(st.none() | st.lists(st.sampled_from(flats), max_size=2, unique=True)) if flats else draw(st.sampled_from([None, []]))
+    absent = [a for a in _ABSENT if a not in everything]
+    props = _pick(draw, usual, 4) + [p for p in _pick(draw, scalars, 3)]
+    props = list(dict.fromkeys(props))
+    if absent and _one_in(draw, 3):
+        props.append(absent[draw(_i(0, len(absent) - 1))])
+    lists = None if _one_in(draw, 3) else _pick(draw, lists_, 3)
+    objects = None if _one_in(draw, 3) else _pick(draw, flats, 2)
     if objects:
-        # a property inside a requested object is claimed by `props` (documented precedence is none; callers never do it)
+        # a property inside a requested flat object is not a use any caller makes (and `props` would claim the member)
         props = [p for p in props if not any(p.startswith(o + ".") for o in objects)]
-    if draw(st.integers(0, 5)) == 0:
-        missing = draw(st.sampled_from(["nope.list", "aggregations.zz.after_key"]))
-        if missing not in uniq:
-            if draw(st.booleans()) and lists is not None:
+    if _one_in(draw, 6):
+        missing = draw(_sf("nope.list", "aggregations.zz.after_key"))
+        if missing not in everything:
+            if draw(_B) and lists is not None:
                 lists = lists + [missing]
             elif objects is not None:
                 objects = objects + [missing]
-    return {"kind": "parse", "resp": [textv], "props": draw(st.permutations(props)) if props else [], "lists": lists, "objects": objects}
+    return {"kind": "parse", "resp": [textv], "props": list(_shuffled(draw, dict.fromkeys(props), True)), "lists": lists, "objects": objects}
 
 
+@functools.lru_cache(maxsize=None)
 def cases(tier):
     return st.one_of(
         bulk_case(tier),
